@@ -57,3 +57,45 @@ Definition expand_case : Type := (Z * Z * option nat * list Z * res (tree * Z))%
 Definition check_expand (c : expand_case) : bool :=
   let '(key, n, sub, ids, expected) := c in
   res_eqb (pair_eqb tree_eqb Z.eqb) (expand key n sub ids) expected.
+
+(* ---- conversion of an entry to the TRIPOLI-4 surface ---- *)
+From T4V Require Import C03.Convert.
+
+Definition t4type_eqb (a b : t4type) : bool :=
+  match a, b with
+  | PLANEX, PLANEX | PLANEY, PLANEY | PLANEZ, PLANEZ | PLANE, PLANE | SPHERE, SPHERE
+  | CYLX, CYLX | CYLY, CYLY | CYLZ, CYLZ | CYL, CYL | CONEX, CONEX | CONEY, CONEY
+  | CONEZ, CONEZ | CONE, CONE | QUAD, QUAD => true
+  | _, _ => false
+  end.
+
+Definition ft4e : Type := (t4type * list float * Z)%type.
+
+Definition t4e_close (a b : ft4e) : bool :=
+  let '(ta, pa, sa) := a in let '(tb, pb, sb) := b in
+  t4type_eqb ta tb && list_eqb f_close9 pa pb && Z.eqb sa sb.
+
+Definition transf_of (l : list float) : option (transf (T := float)) :=
+  match l with
+  | [o1; o2; o3; b1; b2; b3; b4; b5; b6; b7; b8; b9] =>
+      Some ((o1, o2, o3), (b1, b2, b3), (b4, b5, b6), (b7, b8, b9))
+  | _ => None
+  end.
+
+(* transformation (12 numbers, or [] for none), entry, what the code produced *)
+Definition convert_case : Type := (list float * fentry * res (list ft4e))%type.
+
+Definition check_convert (c : convert_case) : bool :=
+  let '(tr, e, expected) := c in
+  res_eqb (list_eqb t4e_close) (convert_entry FS (transf_of tr) e) expected.
+
+(* facet selection + transformation: entries of the body, facet number or none *)
+Definition ptransf_case : Type :=
+  (list float * list fentry * option nat * res (list ft4e))%type.
+
+Definition check_ptransf (c : ptransf_case) : bool :=
+  let '(tr, es, sub, expected) := c in
+  match transf_of tr with
+  | Some t => res_eqb (list_eqb t4e_close) (pot_transform_ref FS t es sub) expected
+  | None => false
+  end.
